@@ -97,6 +97,29 @@ def encryptStm (enc : Bytes → Bytes) (em : Bool) (s : Stm) : Stm :=
       | _ => s.dict
     ⟨d, enc s.data⟩
 
+def removeKey (k : String) : List (String × Obj) → List (String × Obj)
+  | [] => []
+  | (k', v') :: r => if k = k' then r else (k', v') :: removeKey k r
+
+def notCryptName : Obj → Bool
+  | .name n => !(n = "Crypt")
+  | _ => true
+
+/-- `PdfWriter::remove_crypt_filter_tag`: the `Crypt` name is taken out of `/Filter`, the entry
+goes when nothing is left -/
+def stripCrypt (s : Stm) : Stm :=
+  match lookup "Filter" s.dict with
+  | some (.name n) => if n = "Crypt" then ⟨removeKey "Filter" s.dict, s.data⟩ else s
+  | some (.arr l) =>
+    let l' := l.filter notCryptName
+    if l'.isEmpty then ⟨removeKey "Filter" s.dict, s.data⟩ else ⟨setKey "Filter" (.arr l') s.dict, s.data⟩
+  | _ => s
+
+/-- `PdfWriter::write_object` on a stream: `encrypt_object`, then the encryptor's `Crypt` tag is
+dropped unless the stream named the `Crypt` filter before (`stream_names_crypt_filter`). -/
+def writeStm (enc : Bytes → Bytes) (em : Bool) (s : Stm) : Stm :=
+  if hasCrypt (lookup "Filter" s.dict) then encryptStm enc em s else stripCrypt (encryptStm enc em s)
+
 /-- `decrypt_object_if_needed` on a stream: data decrypted unless the STREAM dictionary has
 `/StmF /Identity`; the dictionary (and `/Filter`) is left as read. -/
 def decryptStm (dec : Bytes → Bytes) (s : Stm) : Stm :=
@@ -139,6 +162,12 @@ def readObj (cfg : Cfg) (enc dec : Bytes → Bytes) (o : Obj) : Obj :=
   if detectEncryption (trailerKeys cfg true) then decryptObj dec written else written
 
 def readStm (cfg : Cfg) (enc dec : Bytes → Bytes) (em : Bool) (s : Stm) : Option Stm :=
+  let written := writeStm enc em s
+  let got := if detectEncryption (trailerKeys cfg true) then decryptStm dec written else written
+  if streamDecodable got then some got else none
+
+/-- the writer before the repair: the encryptor's `/Filter /Crypt` tag went into the file -/
+def readStmOld (cfg : Cfg) (enc dec : Bytes → Bytes) (em : Bool) (s : Stm) : Option Stm :=
   let written := encryptStm enc em s
   let got := if detectEncryption (trailerKeys cfg true) then decryptStm dec written else written
   if streamDecodable got then some got else none
